@@ -661,7 +661,7 @@ def _c01():
 
 
 def _c03():
-    hs = _lemma_r({"r_upto16", "r_upto32", "r_upto64"}) + _lemma_p(genframes.P_Q, genframes.P_T) + _lemma_m(genframes.M_Q, genframes.M_T) + _lemma_ref("e", [0, 1, 2, 3], [4, 8, 16, 32], LEMMA_E) + _enc([0, 1, 2, 3], [4, 8, 16, 32], owned=False)
+    hs = _lemma_r({"r_upto16", "r_upto32", "r_upto64"}) + _lemma_p(genframes.P_Q, genframes.P_T) + _lemma_m(genframes.M_Q, genframes.M_T) + _lemma_ref("e", [0, 1, 2, 3], [4, 8, 16, 32], LEMMA_E) + _enc([1, 2, 3], [0, 4, 8, 16, 32], owned=False)
     return Prop(
         "C03",
         ["Frame::from_bytes", "frame::parse_hex", "frame::checksum", "Frame::payload", "Frame::to_bytes", "Data::try_new", "the frame regex pattern (via generated matcher)"],
@@ -677,7 +677,7 @@ def _c03():
 
 
 def _c02():
-    hs = _lemma_r({"r_upto16", "r_upto32"}) + _lemma_p(genframes.P_Q, [4, 8, 16], facets=["outcome", "ok_fields"]) + _enc([0, 1, 2, 3], [4, 8, 16], owned=False)
+    hs = _lemma_r({"r_upto16", "r_upto32"}) + _lemma_p(genframes.P_Q, [4, 8, 16], facets=["outcome", "ok_fields"]) + _enc([1, 2, 3], [0, 4, 8, 16], owned=False)
     for n in genframes.K_Q + genframes.K_T:
         for crlf in (False, True):
             hs.append(
@@ -733,7 +733,7 @@ def _c09():
     for nm, p, ilen, w, h, tier in [
         ("pages_p0", 0, 16, 12, 8, "quick"),
         ("pages_p1_16", 1, 16, 12, 8, "quick"),
-        ("pages_p1_48_a1", 1, 48, 30, 7, "quick"),
+        ("pages_p1_48_a1", 1, 48, 30, 7, "thorough"),
         ("pages_p2_16_a1", 2, 16, 12, 8, "quick"),
         ("pages_p2_48_a1", 2, 48, 30, 7, "thorough"),
         ("pages_p1_96_a1", 1, 96, 90, 7, "thorough"),
@@ -750,7 +750,7 @@ def _c09():
     return Prop(
         "C09",
         ["Sign::configure", "Sign::send_pages", "Sign::send_data", "Sign::ensure_unconfigured", "Sign::send_message / send_message_expect_response", "sign::verify_response", "SignType::to_bytes", "Page::as_bytes"],
-        "configure for every supported type; send_pages with 0..2 pages of 16 bytes and 1 page of 48 bytes quick; 3x16, 1x32, 2x48, 1x96, 1x336 bytes thorough; page contents fully symbolic; all three attempts",
+        "configure for every supported type (all three attempts); send_pages with 0-1 pages of 16 bytes (all three attempts) and 2 pages of 16 bytes (first attempt) quick; 1x48, 2x48, 1x96, 1x336 (first attempt), 2x16, 3x16, 1x32, 1x48 (all attempts) thorough; page contents fully symbolic",
         "pages larger than 336 bytes (in particular the 16-bit offset limit at 65536 bytes / 4096 chunks is not reached); more than 3 pages; pages of different sizes in one call",
         CTL_STUBS,
         CTL_ASSUME,
@@ -770,7 +770,7 @@ def _c10():
         ctl_h("c10::load_next_page_k6", "Sign::load_next_page, polling bounded to 6", tier="thorough", op="load_next_page", polls=6),
         ctl_h("c10::send_pages_p0", "Sign::send_pages with no page, same adversary", p=0, op="send_pages", pages=0),
         ctl_h("c10::send_pages_p1_16", "Sign::send_pages with one 16-byte page (symbolic bytes), same adversary", op="send_pages", pages=1, page_bytes=16),
-        ctl_h("c10::send_pages_p1_48_a1", "Sign::send_pages with one 48-byte page (3 chunks), same adversary, conversations limited to the first transfer attempt", ilen=48, op="send_pages", pages=1, page_bytes=48, attempts=1),
+        ctl_h("c10::send_pages_p1_48_a1", "Sign::send_pages with one 48-byte page (3 chunks), same adversary, conversations limited to the first transfer attempt", tier="thorough", ilen=48, op="send_pages", pages=1, page_bytes=48, attempts=1),
         ctl_h("c10::send_pages_p2_16_a1", "Sign::send_pages with two 16-byte pages, same adversary, first attempt only", p=2, op="send_pages", pages=2, page_bytes=16, attempts=1),
         ctl_h("c10::send_pages_p1_48", "Sign::send_pages with one 48-byte page, same adversary", tier="thorough", ilen=48, op="send_pages", pages=1, page_bytes=48, timeout=5400),
         ctl_h("c10::send_pages_p2_16", "Sign::send_pages with two 16-byte pages, same adversary", tier="thorough", p=2, op="send_pages", pages=2, page_bytes=16, timeout=5400),
@@ -796,7 +796,7 @@ def _c11():
         ctl_h("c11::load_next_page_k3", "Sign::load_next_page (polling <= 3), same invariants", op="load_next_page", polls=3),
         ctl_h("c11::send_pages_p0", "Sign::send_pages with no page", p=0, op="send_pages", pages=0),
         ctl_h("c11::send_pages_p1_16", "Sign::send_pages with one 16-byte page", op="send_pages", pages=1, page_bytes=16),
-        ctl_h("c11::send_pages_p1_48_a1", "Sign::send_pages with one 48-byte page (three chunks: a bad reply on a non-final chunk), conversations limited to the first attempt", ilen=48, op="send_pages", pages=1, page_bytes=48, attempts=1),
+        ctl_h("c11::send_pages_p1_48_a1", "Sign::send_pages with one 48-byte page (three chunks: a bad reply on a non-final chunk), conversations limited to the first attempt", tier="thorough", ilen=48, op="send_pages", pages=1, page_bytes=48, attempts=1),
         ctl_h("c11::send_pages_p2_16_a1", "Sign::send_pages with two 16-byte pages, first attempt only", p=2, op="send_pages", pages=2, page_bytes=16, attempts=1),
         ctl_h("c11::send_pages_p1_48", "Sign::send_pages with one 48-byte page, all attempts", tier="thorough", ilen=48, op="send_pages", pages=1, page_bytes=48, timeout=5400),
         ctl_h("c11::send_pages_p2_16", "Sign::send_pages with two 16-byte pages", tier="thorough", p=2, op="send_pages", pages=2, page_bytes=16, timeout=5400),
